@@ -146,6 +146,17 @@ add("C16", "model_checking",
     "the exact shape).",
     "bounded exhaustive enumeration of corner populations with invariants checked in every state", "2/C16")
 
+add("C08", "model_checking",
+    "Per change-date class >= 2015 (first and last day; C07's stutter invariant makes each interval one equivalence class): (a) the dependency "
+    "graph of the default targets over the documented inputs is acyclic, every leaf is a documented input (or parameter-only rule), every rule "
+    "with a rounding key has its specification; (b) every policy rule in that graph is executed on ALL control-flow paths (atomic tests are "
+    "harness-controlled choices, <= 2^12 paths) with the date's real parameters behind a recording proxy: a look-up of a literal parameter key "
+    "that does not exist at that date is a violation, whichever branch real data would select; (c) the library households and their k=1 "
+    "deviations are simulated for the default targets and must not raise.",
+    "Path mode only counts string-literal keys on *_params dictionaries (data-indexed look-ups are exercised by the population runs); "
+    "membership tests on parameter dictionaries stay real. Populations are the library universe.",
+    "exhaustive exploration of rule control-flow paths x change-date classes under a recording parameter proxy, plus bounded population runs", "2/C08")
+
 NOT_APPLICABLE = []
 
 
